@@ -366,7 +366,7 @@ func vfStubWithTimeout(parent context.Context, d time.Duration) (context.Context
 
 //vf:override context.WithTimeout = vfStubWithTimeout
 
-//vf:harness property=C08 nopanic reach=timeout-fired,timeout-header-won,no-timeout
+//vf:harness property=C08 nopanic reach=timeout-fired,timeout-header-won,no-timeout nativeskip=timeout-fired,timeout-header-won
 func vfH_C08_timeout() {
 	// a complete, valid v2 LOCAL header; the deadline event is nondeterministic
 	data := append([]byte{}, V2Identifier...)
